@@ -12,7 +12,8 @@ RULE = ("cases are trees: free-form random trees over known and unknown element 
         "random mutations, mutations of tests/data/eml.xml, and a synthetic rule with an unknown content rule injected into "
         "the in-memory table; every tree goes through validate.tree in fail-fast and in collecting mode, and a sample of its "
         "nodes through validate.node in both modes. distinct = distinct tree values (names, content, attributes, shape); "
-        "non-trivial = trees on which at least one mode reports a problem")
+        "non-trivial = trees on which at least one mode reports a problem"
+        ". Also: the lexical class tables on every typed rule, trees validated again after in-place edits, id strings repeated along paths, nodes moved with a stale parent link, first-use probes, a faulted configuration")
 ASSUMPTIONS = [
     "rule-error family = subclasses of metapype.eml.exceptions.MetapypeRuleError",
     "Unicode text = sequences of scalar values (no lone surrogates)",
